@@ -213,6 +213,8 @@ theorem appendBatch_cacheInv (fsHas : Nat → Bool) (es : List (LogId × Bytes))
     unfold Store.appendBatch
     have h1 := appendAndApply_cacheInv fsHas (.append id p) hinv (by intro x hx; cases hx)
     split
+    · exact hinv
+    split
     · rename_i seg' s' e' heq
       rw [heq] at h1
       exact ih _ s' seg' _ h1
@@ -245,6 +247,8 @@ theorem call_cacheInv {s : Store} (fsHas : Nat → Bool) (op : Op) (hinv : Cache
           · exact appendAndApply_cacheInv fsHas _ hinv (by intro x hx; cases hx)
   | purge upto =>
     simp only [Store.call]
+    split
+    · exact hinv
     split
     · exact hinv
     · split
